@@ -7,6 +7,10 @@ K2  set-to-sequence sites located by AST scan, iteration order as a symbolic per
 K3  stream handling: position restored where promised, parsers started at offset 0, never
     written; stand-in stream with symbolic position
 K4  public readers leave the caller's buffer unchanged and do not depend on its position
+K5  extraction histories: sequences of generated documents (same part names / ids, different content; every member
+    of the package missing in turn, references dangling or removed; path aliasing; pairs of formats) extracted in one
+    process, every step compared with the same (bytes, path) in a process of its own; AST scan for state that
+    outlives an extraction, each site exercised by some sequence or declared outside
 """
 import base64
 import dataclasses
@@ -2140,6 +2144,902 @@ def _k4_targets():
     return [get_extractor("x." + f) for f in sorted({f.split("+")[0] for f in _samples()})]
 
 
+# =======================================================================================
+# K5: extraction histories - the result for (bytes, path) does not depend on what the process
+#     extracted before
+# =======================================================================================
+#
+# Documents are generated as packages (list of members) in an "ink": every text, name and image of a
+# document carries its ink, so two documents of one format have the SAME part names / relationship ids /
+# style ids with DIFFERENT content.  A family is the full-featured package and, for every member, the
+# package without it (references left dangling) and without it and without the elements that refer to
+# it (ids left dangling).  A sequence of documents is extracted by the public reader in ONE process
+# that has extracted nothing before; the oracle for every step is the result of the same (bytes, path)
+# in a process of its own.
+
+INKS = ["alpha", "bravo"]
+_PNG_1x1 = base64.b64decode("iVBORw0KGgoAAAANSUhEUgAAAAEAAAABCAYAAAAfFcSJAAAADUlEQVR42mP8z8BQDwAEhQGAhKmMIQAAAABJRU5ErkJggg==")
+_NS_W = "http://schemas.openxmlformats.org/wordprocessingml/2006/main"
+_NS_A = "http://schemas.openxmlformats.org/drawingml/2006/main"
+_NS_S = "http://schemas.openxmlformats.org/spreadsheetml/2006/main"
+_NS_PKG = "http://schemas.openxmlformats.org/package/2006/relationships"
+_CORE_REL = "http://schemas.openxmlformats.org/package/2006/relationships/metadata/core-properties"
+_XML = '<?xml version="1.0" encoding="UTF-8"?>'
+
+
+def _h_rels(items):
+    return _XML + '<Relationships xmlns="%s">%s</Relationships>' % (_NS_PKG, "".join(
+        '<Relationship Id="%s" Type="%s" Target="%s"%s/>' % (i, t if "://" in t else _R_NS + "/" + t, g,
+                                                            ' TargetMode="External"' if g.startswith("http") else "")
+        for i, t, g in items))
+
+
+def _h_ctypes(overrides=()):
+    return _XML + ('<Types xmlns="http://schemas.openxmlformats.org/package/2006/content-types">'
+                   '<Default Extension="rels" ContentType="application/vnd.openxmlformats-package.relationships+xml"/>'
+                   '<Default Extension="xml" ContentType="application/xml"/><Default Extension="png" ContentType="image/png"/>'
+                   '%s</Types>' % "".join('<Override PartName="/%s" ContentType="%s"/>' % o for o in overrides))
+
+
+def _h_core(ink):
+    return _XML + ('<cp:coreProperties xmlns:cp="http://schemas.openxmlformats.org/package/2006/metadata/core-properties" '
+                   'xmlns:dc="http://purl.org/dc/elements/1.1/" xmlns:dcterms="http://purl.org/dc/terms/" '
+                   'xmlns:xsi="http://www.w3.org/2001/XMLSchema-instance"><dc:title>title %s</dc:title><dc:creator>author %s</dc:creator>'
+                   '<dcterms:created xsi:type="dcterms:W3CDTF">2015-01-01T10:00:00Z</dcterms:created>'
+                   '<dcterms:modified xsi:type="dcterms:W3CDTF">2015-01-02T10:00:00Z</dcterms:modified></cp:coreProperties>' % (ink, ink))
+
+
+def _h_png(ink):
+    return _PNG_1x1 + ink.encode()          # bytes after IEND: one picture, distinct bytes per ink
+
+
+def pkg_docx(ink):
+    def p(text, style=None, extra=""):
+        return '<w:p>%s<w:r><w:t>%s</w:t></w:r>%s</w:p>' % ('<w:pPr><w:pStyle w:val="%s"/></w:pPr>' % style if style else "", text, extra)
+    wp = "http://schemas.openxmlformats.org/drawingml/2006/wordprocessingDrawing"
+    pic = "http://schemas.openxmlformats.org/drawingml/2006/picture"
+    drawing = ('<w:p><w:r><w:drawing><wp:inline><wp:extent cx="9525" cy="9525"/><wp:docPr id="1" name="Picture 1" descr="picture %s"/>'
+               '<a:graphic><a:graphicData><pic:pic><pic:nvPicPr><pic:cNvPr id="1" name="Picture 1"/></pic:nvPicPr><pic:blipFill>'
+               '<a:blip r:embed="rId4"/></pic:blipFill></pic:pic></a:graphicData></a:graphic></wp:inline></w:drawing></w:r></w:p>' % ink)
+    body = (p("heading %s" % ink, "Heading1")
+            + p("body %s" % ink, None, '<w:r><w:footnoteReference w:id="2"/></w:r><w:r><w:endnoteReference w:id="2"/></w:r>'
+                                       '<w:r><w:commentReference w:id="0"/></w:r>')
+            + '<w:p><w:hyperlink r:id="rId5"><w:r><w:t>link %s</w:t></w:r></w:hyperlink></w:p>' % ink + drawing
+            + '<w:tbl><w:tr><w:tc><w:p><w:r><w:t>cell %s</w:t></w:r></w:p></w:tc></w:tr></w:tbl>' % ink
+            + '<w:sectPr><w:headerReference w:type="default" r:id="rId2"/><w:footerReference w:type="default" r:id="rId3"/></w:sectPr>')
+    doc = _XML + ('<w:document xmlns:w="%s" xmlns:r="%s" xmlns:wp="%s" xmlns:a="%s" xmlns:pic="%s"><w:body>%s</w:body></w:document>'
+                  % (_NS_W, _R_NS, wp, _NS_A, pic, body))
+
+    def part(tag, inner):
+        return _XML + '<w:%s xmlns:w="%s" xmlns:r="%s">%s</w:%s>' % (tag, _NS_W, _R_NS, inner, tag)
+    return [
+        ("[Content_Types].xml", _h_ctypes([("word/document.xml", "application/vnd.openxmlformats-officedocument.wordprocessingml.document.main+xml")])),
+        ("_rels/.rels", _h_rels([("rId1", "officeDocument", "word/document.xml"), ("rId2", _CORE_REL, "docProps/core.xml")])),
+        ("word/document.xml", doc),
+        ("word/_rels/document.xml.rels", _h_rels([
+            ("rId1", "styles", "styles.xml"), ("rId2", "header", "header1.xml"), ("rId3", "footer", "footer1.xml"),
+            ("rId4", "image", "media/image1.png"), ("rId5", "hyperlink", "http://example.org/" + ink),
+            ("rId6", "footnotes", "footnotes.xml"), ("rId7", "endnotes", "endnotes.xml"), ("rId8", "comments", "comments.xml")])),
+        ("docProps/core.xml", _h_core(ink)),
+        ("word/styles.xml", part("styles", '<w:style w:type="paragraph" w:styleId="Heading1"><w:name w:val="heading 1 %s"/></w:style>' % ink)),
+        ("word/header1.xml", part("hdr", p("header %s" % ink))),
+        ("word/footer1.xml", part("ftr", p("footer %s" % ink))),
+        ("word/footnotes.xml", part("footnotes", '<w:footnote w:id="2">%s</w:footnote>' % p("footnote %s" % ink))),
+        ("word/endnotes.xml", part("endnotes", '<w:endnote w:id="2">%s</w:endnote>' % p("endnote %s" % ink))),
+        ("word/comments.xml", part("comments", '<w:comment w:id="0" w:author="author %s" w:date="2015-01-01T00:00:00Z">%s</w:comment>'
+                                   % (ink, p("comment %s" % ink)))),
+        ("word/media/image1.png", _h_png(ink)),
+    ]
+
+
+def pkg_pptx(ink):
+    def slide(i):
+        return _XML + ('<p:sld xmlns:p="%s" xmlns:a="%s" xmlns:r="%s"><p:cSld><p:spTree><p:nvGrpSpPr><p:cNvPr id="1" name=""/><p:cNvGrpSpPr/><p:nvPr/>'
+                       '</p:nvGrpSpPr><p:grpSpPr/><p:sp><p:nvSpPr><p:cNvPr id="2" name="Title"/><p:cNvSpPr/><p:nvPr><p:ph type="title"/></p:nvPr></p:nvSpPr>'
+                       '<p:spPr/><p:txBody><a:bodyPr/><a:p><a:r><a:t>slide %d %s</a:t></a:r></a:p></p:txBody></p:sp>'
+                       '<p:pic><p:nvPicPr><p:cNvPr id="3" name="Picture 1" descr="picture %s"/><p:cNvPicPr/><p:nvPr/></p:nvPicPr><p:blipFill>'
+                       '<a:blip r:embed="rId1"/></p:blipFill><p:spPr><a:xfrm><a:off x="0" y="0"/><a:ext cx="9525" cy="9525"/></a:xfrm></p:spPr></p:pic>'
+                       '</p:spTree></p:cSld></p:sld>' % (_P_NS, _NS_A, _R_NS, i, ink, ink))
+    notes = _XML + ('<p:notes xmlns:p="%s" xmlns:a="%s"><p:cSld><p:spTree><p:sp><p:nvSpPr><p:cNvPr id="2" name="Notes"/><p:cNvSpPr/><p:nvPr>'
+                    '<p:ph type="body"/></p:nvPr></p:nvSpPr><p:spPr/><p:txBody><a:bodyPr/><a:p><a:r><a:t>notes %s</a:t></a:r></a:p></p:txBody></p:sp>'
+                    '</p:spTree></p:cSld></p:notes>' % (_P_NS, _NS_A, ink))
+    comment = _XML + ('<p:cmLst xmlns:p="%s"><p:cm authorId="0" dt="2015-01-01T00:00:00" idx="1"><p:pos x="1" y="1"/><p:text>comment %s</p:text>'
+                      '</p:cm></p:cmLst>' % (_P_NS, ink))
+    prs = _XML + ('<p:presentation xmlns:p="%s" xmlns:r="%s"><p:sldIdLst><p:sldId id="256" r:id="rId1"/><p:sldId id="257" r:id="rId2"/>'
+                  '</p:sldIdLst></p:presentation>' % (_P_NS, _R_NS))
+    return [
+        ("[Content_Types].xml", _h_ctypes()),
+        ("_rels/.rels", _h_rels([("rId1", "officeDocument", "ppt/presentation.xml"), ("rId2", _CORE_REL, "docProps/core.xml")])),
+        ("ppt/presentation.xml", prs),
+        ("ppt/_rels/presentation.xml.rels", _h_rels([("rId1", "slide", "slides/slide1.xml"), ("rId2", "slide", "slides/slide2.xml")])),
+        ("ppt/slides/slide1.xml", slide(1)),
+        ("ppt/slides/_rels/slide1.xml.rels", _h_rels([("rId1", "image", "../media/image1.png"), ("rId2", "notesSlide", "../notesSlides/notesSlide1.xml"),
+                                                      ("rId3", "comments", "../comments/comment1.xml")])),
+        ("ppt/slides/slide2.xml", slide(2)),
+        ("ppt/slides/_rels/slide2.xml.rels", _h_rels([("rId1", "image", "../media/image2.png")])),
+        ("docProps/core.xml", _h_core(ink)),
+        ("ppt/notesSlides/notesSlide1.xml", notes),
+        ("ppt/comments/comment1.xml", comment),
+        ("ppt/media/image1.png", _h_png(ink)),
+        ("ppt/media/image2.png", _h_png(ink + "2")),
+    ]
+
+
+def pkg_xlsx(ink):
+    xdr = "http://schemas.openxmlformats.org/drawingml/2006/spreadsheetDrawing"
+    wb = _XML + ('<workbook xmlns="%s" xmlns:r="%s"><sheets><sheet name="first %s" sheetId="1" r:id="rId1"/><sheet name="second %s" sheetId="2" r:id="rId2"/>'
+                 '</sheets></workbook>' % (_NS_S, _R_NS, ink, ink))
+
+    def sheet(i, drawing):
+        return _XML + ('<worksheet xmlns="%s" xmlns:r="%s"><sheetData><row r="1"><c r="A1" t="s"><v>0</v></c><c r="B1" t="inlineStr"><is><t>inline %d %s</t></is></c>'
+                       '<c r="C1"><v>%d</v></c></row></sheetData>%s</worksheet>' % (_NS_S, _R_NS, i, ink, i, '<drawing r:id="rId1"/>' if drawing else ""))
+    drawing = _XML + ('<xdr:wsDr xmlns:xdr="%s" xmlns:a="%s" xmlns:r="%s"><xdr:oneCellAnchor><xdr:from><xdr:col>0</xdr:col><xdr:colOff>0</xdr:colOff>'
+                      '<xdr:row>2</xdr:row><xdr:rowOff>0</xdr:rowOff></xdr:from><xdr:ext cx="9525" cy="9525"/><xdr:pic><xdr:nvPicPr>'
+                      '<xdr:cNvPr id="2" name="Picture 1" descr="picture %s"/><xdr:cNvPicPr/></xdr:nvPicPr><xdr:blipFill><a:blip r:embed="rId1"/></xdr:blipFill>'
+                      '<xdr:spPr/></xdr:pic><xdr:clientData/></xdr:oneCellAnchor></xdr:wsDr>' % (xdr, _NS_A, _R_NS, ink))
+    return [
+        ("[Content_Types].xml", _h_ctypes([
+            ("xl/workbook.xml", "application/vnd.openxmlformats-officedocument.spreadsheetml.sheet.main+xml"),
+            ("xl/worksheets/sheet1.xml", "application/vnd.openxmlformats-officedocument.spreadsheetml.worksheet+xml"),
+            ("xl/worksheets/sheet2.xml", "application/vnd.openxmlformats-officedocument.spreadsheetml.worksheet+xml"),
+            ("xl/sharedStrings.xml", "application/vnd.openxmlformats-officedocument.spreadsheetml.sharedStrings+xml"),
+            ("xl/drawings/drawing1.xml", "application/vnd.openxmlformats-officedocument.drawing+xml"),
+            ("docProps/core.xml", "application/vnd.openxmlformats-package.core-properties+xml")])),
+        ("_rels/.rels", _h_rels([("rId1", "officeDocument", "xl/workbook.xml"), ("rId2", _CORE_REL, "docProps/core.xml")])),
+        ("xl/workbook.xml", wb),
+        ("xl/_rels/workbook.xml.rels", _h_rels([("rId1", "worksheet", "worksheets/sheet1.xml"), ("rId2", "worksheet", "worksheets/sheet2.xml"),
+                                                ("rId3", "sharedStrings", "sharedStrings.xml")])),
+        ("xl/worksheets/sheet1.xml", sheet(1, True)),
+        ("xl/worksheets/sheet2.xml", sheet(2, False)),
+        ("xl/sharedStrings.xml", _XML + '<sst xmlns="%s" count="1" uniqueCount="1"><si><t>shared %s</t></si></sst>' % (_NS_S, ink)),
+        ("docProps/core.xml", _h_core(ink)),
+        ("xl/worksheets/_rels/sheet1.xml.rels", _h_rels([("rId1", "drawing", "../drawings/drawing1.xml")])),
+        ("xl/drawings/drawing1.xml", drawing),
+        ("xl/drawings/_rels/drawing1.xml.rels", _h_rels([("rId1", "image", "../media/image1.png")])),
+        ("xl/media/image1.png", _h_png(ink)),
+    ]
+
+
+_ODF_ALL_NS = ('xmlns:office="urn:oasis:names:tc:opendocument:xmlns:office:1.0" xmlns:style="urn:oasis:names:tc:opendocument:xmlns:style:1.0" '
+               'xmlns:text="urn:oasis:names:tc:opendocument:xmlns:text:1.0" xmlns:table="urn:oasis:names:tc:opendocument:xmlns:table:1.0" '
+               'xmlns:draw="urn:oasis:names:tc:opendocument:xmlns:drawing:1.0" xmlns:xlink="http://www.w3.org/1999/xlink" '
+               'xmlns:svg="urn:oasis:names:tc:opendocument:xmlns:svg-compatible:1.0" xmlns:dc="http://purl.org/dc/elements/1.1/" '
+               'xmlns:meta="urn:oasis:names:tc:opendocument:xmlns:meta:1.0" xmlns:presentation="urn:oasis:names:tc:opendocument:xmlns:presentation:1.0"')
+
+
+def _odf_package(kind, ink, body, master=""):
+    mt = "application/vnd.oasis.opendocument." + kind
+    content = _XML + ('<office:document-content %s office:version="1.2"><office:automatic-styles><style:style style:name="P1 %s" style:family="paragraph"/>'
+                      '</office:automatic-styles><office:body>%s</office:body></office:document-content>' % (_ODF_ALL_NS, ink, body))
+    styles = _XML + ('<office:document-styles %s><office:styles><style:style style:name="Standard %s" style:family="paragraph"/></office:styles>'
+                     '<office:master-styles><style:master-page style:name="Standard">%s</style:master-page></office:master-styles>'
+                     '</office:document-styles>' % (_ODF_ALL_NS, ink, master))
+    meta = _XML + ('<office:document-meta %s><office:meta><dc:title>title %s</dc:title><dc:creator>author %s</dc:creator>'
+                   '<meta:creation-date>2015-01-01T10:00:00</meta:creation-date></office:meta></office:document-meta>' % (_ODF_ALL_NS, ink, ink))
+    man = _XML + ('<manifest:manifest xmlns:manifest="urn:oasis:names:tc:opendocument:xmlns:manifest:1.0">'
+                  '<manifest:file-entry manifest:full-path="/" manifest:media-type="%s"/>'
+                  '<manifest:file-entry manifest:full-path="content.xml" manifest:media-type="text/xml"/>'
+                  '<manifest:file-entry manifest:full-path="styles.xml" manifest:media-type="text/xml"/>'
+                  '<manifest:file-entry manifest:full-path="meta.xml" manifest:media-type="text/xml"/>'
+                  '<manifest:file-entry manifest:full-path="Pictures/image1.png" manifest:media-type="image/png"/></manifest:manifest>' % mt)
+    return [("mimetype", mt), ("content.xml", content), ("META-INF/manifest.xml", man), ("styles.xml", styles), ("meta.xml", meta),
+            ("Pictures/image1.png", _h_png(ink))]
+
+
+def _odf_frame(ink):
+    return ('<draw:frame draw:name="frame %s" svg:width="1cm" svg:height="1cm"><draw:image xlink:href="Pictures/image1.png" xlink:type="simple"/>'
+            '<svg:title>picture %s</svg:title></draw:frame>' % (ink, ink))
+
+
+def pkg_odt(ink):
+    body = ('<office:text><text:h text:outline-level="1">heading %s</text:h><text:p text:style-name="P1 %s">body %s<text:note text:note-class="footnote" '
+            'text:id="n1"><text:note-citation>1</text:note-citation><text:note-body><text:p>footnote %s</text:p></text:note-body></text:note></text:p>'
+            '<text:p>%s</text:p><table:table table:name="T"><table:table-row><table:table-cell><text:p>cell %s</text:p></table:table-cell>'
+            '</table:table-row></table:table></office:text>' % (ink, ink, ink, ink, _odf_frame(ink), ink))
+    master = '<style:header><text:p>header %s</text:p></style:header><style:footer><text:p>footer %s</text:p></style:footer>' % (ink, ink)
+    return _odf_package("text", ink, body, master)
+
+
+def pkg_odp(ink):
+    body = ('<office:presentation><draw:page draw:name="page1 %s"><draw:frame presentation:class="title"><draw:text-box><text:p>slide 1 %s</text:p>'
+            '</draw:text-box></draw:frame>%s<presentation:notes><draw:frame presentation:class="notes"><draw:text-box><text:p>notes %s</text:p></draw:text-box>'
+            '</draw:frame></presentation:notes></draw:page><draw:page draw:name="page2 %s"><draw:frame><draw:text-box><text:p>slide 2 %s</text:p>'
+            '</draw:text-box></draw:frame></draw:page></office:presentation>' % (ink, ink, _odf_frame(ink), ink, ink, ink))
+    return _odf_package("presentation", ink, body)
+
+
+def pkg_ods(ink):
+    body = ('<office:spreadsheet><table:table table:name="first %s"><table:table-row><table:table-cell office:value-type="string"><text:p>cell %s</text:p>'
+            '</table:table-cell><table:table-cell office:value-type="float" office:value="1"><text:p>1</text:p></table:table-cell></table:table-row>'
+            '<table:shapes>%s</table:shapes></table:table><table:table table:name="second %s"><table:table-row><table:table-cell office:value-type="string">'
+            '<text:p>other %s</text:p></table:table-cell></table:table-row></table:table></office:spreadsheet>' % (ink, ink, _odf_frame(ink), ink, ink))
+    return _odf_package("spreadsheet", ink, body)
+
+
+def pkg_epub(ink):
+    def ch(i, img):
+        return _XML + ('<html xmlns="http://www.w3.org/1999/xhtml"><head><title>chapter %d %s</title><link rel="stylesheet" href="style.css"/></head><body>'
+                       '<h1>chapter %d %s</h1><p>text %d %s</p>%s<table><tr><td>cell %d %s</td></tr></table></body></html>'
+                       % (i, ink, i, ink, i, ink, '<p><img src="images/image1.png" alt="picture %s"/></p>' % ink if img else "", i, ink))
+    opf = _XML + ('<package xmlns="http://www.idpf.org/2007/opf" version="3.0" unique-identifier="id"><metadata xmlns:dc="http://purl.org/dc/elements/1.1/">'
+                  '<dc:title>title %s</dc:title><dc:creator>author %s</dc:creator><dc:identifier id="id">id-%s</dc:identifier><dc:language>en</dc:language></metadata>'
+                  '<manifest><item id="ch1" href="ch1.xhtml" media-type="application/xhtml+xml"/><item id="ch2" href="ch2.xhtml" media-type="application/xhtml+xml"/>'
+                  '<item id="nav" href="nav.xhtml" media-type="application/xhtml+xml" properties="nav"/><item id="ncx" href="toc.ncx" media-type="application/x-dtbncx+xml"/>'
+                  '<item id="css" href="style.css" media-type="text/css"/><item id="img1" href="images/image1.png" media-type="image/png"/></manifest>'
+                  '<spine toc="ncx"><itemref idref="ch1"/><itemref idref="ch2"/></spine></package>' % (ink, ink, ink))
+    nav = _XML + ('<html xmlns="http://www.w3.org/1999/xhtml" xmlns:epub="http://www.idpf.org/2007/ops"><head><title>nav</title></head><body><nav epub:type="toc"><ol>'
+                  '<li><a href="ch1.xhtml">toc 1 %s</a></li><li><a href="ch2.xhtml">toc 2 %s</a></li></ol></nav></body></html>' % (ink, ink))
+    ncx = _XML + ('<ncx xmlns="http://www.daisy.org/z3986/2005/ncx/" version="2005-1"><navMap><navPoint id="n1" playOrder="1"><navLabel><text>ncx 1 %s</text>'
+                  '</navLabel><content src="ch1.xhtml"/></navPoint></navMap></ncx>' % ink)
+    return [("mimetype", "application/epub+zip"),
+            ("META-INF/container.xml", _XML + '<container version="1.0" xmlns="urn:oasis:names:tc:opendocument:xmlns:container"><rootfiles>'
+                                              '<rootfile full-path="OEBPS/content.opf" media-type="application/oebps-package+xml"/></rootfiles></container>'),
+            ("OEBPS/content.opf", opf), ("OEBPS/ch1.xhtml", ch(1, True)), ("OEBPS/ch2.xhtml", ch(2, False)), ("OEBPS/nav.xhtml", nav),
+            ("OEBPS/toc.ncx", ncx), ("OEBPS/style.css", "p { color: black } /* %s */" % ink), ("OEBPS/images/image1.png", _h_png(ink))]
+
+
+# flat formats: a document is a list of elements, the optional ones can each be left out; text formats also come in
+# other encodings (their text holds a non-ASCII letter)
+
+def _opt(name, text, without):
+    return "" if name == without else text
+
+
+def _flat_html(ink, without=None):
+    o = lambda n, t: _opt(n, t, without)                # noqa: E731
+    return ('<html><head>' + o("charset", '<meta charset="utf-8">') + o("title", '<title>title %s</title>' % ink)
+            + o("description", '<meta name="description" content="description %s">' % ink) + '</head><body>'
+            + o("heading", '<h1>heading %s</h1>' % ink) + '<p>para %s ä</p>' % ink
+            + o("link", '<a href="http://example.org/%s">link %s</a>' % (ink, ink))
+            + o("table", '<table><tr><td>cell %s</td></tr></table>' % ink) + o("list", '<ul><li>item %s</li></ul>' % ink)
+            + '</body></html>').encode("utf-8")
+
+
+def _flat_eml(ink, without=None):
+    o = lambda n, t: _opt(n, t, without)                # noqa: E731
+    return ("From: %s@example.org\r\nTo: reader@example.org\r\n" % ink + o("cc", "Cc: copy-%s@example.org\r\n" % ink)
+            + o("subject", "Subject: subject %s\r\n" % ink) + o("date", "Date: Thu, 01 Jan 2015 10:00:00 +0000\r\n")
+            + o("message-id", "Message-ID: <%s@example.org>\r\n" % ink)
+            + "MIME-Version: 1.0\r\nContent-Type: multipart/mixed; boundary=\"BOUND\"\r\n\r\n"
+            + o("plain body", "--BOUND\r\nContent-Type: text/plain; charset=utf-8\r\n\r\nbody %s\r\n" % ink)
+            + o("html body", "--BOUND\r\nContent-Type: text/html; charset=utf-8\r\n\r\n<html><body><p>html body %s</p></body></html>\r\n" % ink)
+            + o("attachment", "--BOUND\r\nContent-Type: text/plain; name=\"note.txt\"\r\nContent-Disposition: attachment; "
+                              "filename=\"note.txt\"\r\n\r\nattachment %s\r\n" % ink)
+            + "--BOUND--\r\n").encode()
+
+
+def _flat_mhtml(ink, without=None):
+    return (("MIME-Version: 1.0\r\nContent-Type: multipart/related; boundary=\"BOUND\"\r\n" + _opt("subject", "Subject: subject %s\r\n" % ink, without)
+             + _opt("date", "Date: Mon, 15 Jan 2024 10:00:00 +0000\r\n", without)
+             + "\r\n--BOUND\r\nContent-Type: text/html; charset=\"utf-8\"\r\n\r\n").encode()
+            + _flat_html(ink, without) + b"\r\n--BOUND--\r\n")
+
+
+def _flat_rtf(ink, without=None):
+    o = lambda n, t: _opt(n, t, without)                # noqa: E731
+    return (r"{\rtf1\ansi" + o("font table", r"{\fonttbl{\f0 Times;}}") + o("colour table", r"{\colortbl;\red255\green0\blue0;}")
+            + o("info", r"{\info{\title title %s}{\author author %s}}" % (ink, ink)) + o("header", r"{\header header %s}" % ink)
+            + o("footer", r"{\footer footer %s}" % ink) + r"\f0 body %s" % ink + o("footnote", r"{\footnote footnote %s}" % ink)
+            + o("page break", r"\page ") + r"\par second %s\par}" % ink).encode()
+
+
+def _flat_pdf(ink, without=None):
+    """one page, one line of text in a standard font, document information with a title"""
+    stream = ("BT /F1 12 Tf 20 100 Td (text %s) Tj ET" % ink).encode()
+    objs = [b"<< /Type /Catalog /Pages 2 0 R >>", b"<< /Type /Pages /Kids [3 0 R] /Count 1 >>",
+            b"<< /Type /Page /Parent 2 0 R /MediaBox [0 0 200 200] /Contents 4 0 R /Resources << /Font << /F1 5 0 R >> >> >>",
+            b"<< /Length %d >>\nstream\n" % len(stream) + stream + b"\nendstream",
+            b"<< /Type /Font /Subtype /Type1 /BaseFont /Helvetica >>", ("<< /Title (title %s) /Author (author %s) >>" % (ink, ink)).encode()]
+    if without == "font":
+        objs[2] = objs[2].replace(b"/Resources << /Font << /F1 5 0 R >> >>", b"")
+    out, offs = b"%PDF-1.4\n", []
+    for i, ob in enumerate(objs):
+        offs.append(len(out))
+        out += b"%d 0 obj\n" % (i + 1) + ob + b"\nendobj\n"
+    xref = len(out)
+    out += b"xref\n0 %d\n0000000000 65535 f \n" % (len(objs) + 1) + b"".join(b"%010d 00000 n \n" % x for x in offs)
+    return out + b"trailer\n<< /Size %d /Root 1 0 R %s>>\nstartxref\n%d\n%%%%EOF\n" % (
+        len(objs) + 1, b"" if without == "document information" else b"/Info 6 0 R ", xref)
+
+
+def _flat_text(ink, without=None):
+    return (_opt("first line", "text %s äö\n" % ink, without) + "line two %s\n" % ink + _opt("last line", "line three %s\n" % ink, without)).encode("utf-8")
+
+
+def _flat_tar(ink, without=None):
+    return _tar_bytes([(n, d) for n, d in [("a.txt", _flat_text(ink)), ("b.html", _flat_html(ink)), ("c.eml", _flat_eml(ink))] if n != without])
+
+
+def pkg_zip(ink):
+    """an archive is a package too: its members are documents"""
+    return [("a.txt", _flat_text(ink)), ("b.html", _flat_html(ink)), ("c.docx", _h_zip(pkg_docx(ink))), ("d.eml", _flat_eml(ink)),
+            ("e.pdf", _flat_pdf(ink)), ("folder/f.odt", _h_zip(pkg_odt(ink)))]
+
+
+def _h_zip(members):
+    import zipfile
+    b = io.BytesIO()
+    with zipfile.ZipFile(b, "w") as z:
+        for n, d in members:
+            zi = zipfile.ZipInfo(n, date_time=(2020, 1, 1, 0, 0, 0))
+            zi.compress_type = zipfile.ZIP_STORED if n == "mimetype" else zipfile.ZIP_DEFLATED
+            z.writestr(zi, d)
+    return b.getvalue()
+
+
+PACKAGES = {"docx": pkg_docx, "pptx": pkg_pptx, "xlsx": pkg_xlsx, "odt": pkg_odt, "odp": pkg_odp, "ods": pkg_ods, "epub": pkg_epub,
+            "zip": pkg_zip}
+FLAT = {
+    "txt": _flat_text,
+    "md": lambda ink, without=None: b"# heading " + ink.encode() + b"\n\n" + _flat_text(ink, without),
+    "html": _flat_html,
+    "rtf": _flat_rtf,
+    "eml": _flat_eml,
+    "mbox": lambda ink, without=None: b"From %s@example.org Thu Jan  1 00:00:00 2015\r\n" % ink.encode() + _flat_eml(ink, without) + b"\r\n",
+    "mhtml": _flat_mhtml,
+    "pdf": _flat_pdf,
+    "tar": _flat_tar,
+}
+FLAT_OPTIONAL = {
+    "txt": ["first line", "last line"], "md": ["first line"],
+    "html": ["charset", "title", "description", "heading", "link", "table", "list"],
+    "rtf": ["font table", "colour table", "info", "header", "footer", "footnote", "page break"],
+    "eml": ["cc", "subject", "date", "message-id", "plain body", "html body", "attachment"],
+    "mbox": ["subject", "attachment"], "mhtml": ["subject", "date", "title", "table"],
+    "pdf": ["document information", "font"], "tar": ["a.txt", "b.html", "c.eml"],
+}
+FLAT_ENCODINGS = {"txt": ["utf-16", "latin-1", "utf-8-sig"], "md": ["utf-16"], "html": ["latin-1"]}     # full document re-encoded
+_FIXTURE_FORMATS = ["doc", "xls", "ppt", "msg", "odg", "odf", "pdf"]      # real documents of the repository's test resources
+
+
+def _fixture_pairs():
+    """per format without a writer here: the two smallest distinct readable-size test resources of the repository"""
+    if "fixtures" in _SCAN_CACHE:
+        return _SCAN_CACHE["fixtures"]
+    found = {}
+    root = S.REPO + "/sharepoint2text/tests/resources"
+    for d, _, files in sorted(os.walk(root)):
+        if "password" in d:
+            continue
+        for f in sorted(files):
+            ext = f.rsplit(".", 1)[-1].lower()
+            p = os.path.join(d, f)
+            if ext in _FIXTURE_FORMATS and 0 < os.path.getsize(p) <= 400_000:
+                found.setdefault(ext, []).append((os.path.getsize(p), p))
+    out = _SCAN_CACHE["fixtures"] = {"fixture-" + e: [p for _, p in sorted(v)[:2]] for e, v in sorted(found.items()) if len(v) >= 2}
+    return out
+
+
+def _unreferenced(members, name):
+    """the other members without the elements that point to `name` (relationship, content-type override, manifest entry, OPF item)"""
+    import re
+    base = re.escape(name.rsplit("/", 1)[-1])
+    pat = re.compile(r'<(?:Relationship|Override|manifest:file-entry|item)\b[^>]*\b(?:Target|PartName|manifest:full-path|href)="[^"]*%s"[^>]*/>' % base)
+    return [(n, pat.sub("", d) if isinstance(d, str) else d) for n, d in members if n != name]
+
+
+def history_family(fmt):
+    """[variant]: ('full',) | ('without', member or element) | ('without+unreferenced', member) | ('encoded as', codec);
+    repository resources: [('full',)]"""
+    key = ("family", fmt)
+    if key not in _SCAN_CACHE:
+        fam = [("full",)] + [("without", n) for n in FLAT_OPTIONAL.get(fmt, [])] + [("encoded as", e) for e in FLAT_ENCODINGS.get(fmt, [])]
+        if fmt in PACKAGES:
+            mem = PACKAGES[fmt]("alpha")
+            for n, _ in mem:
+                fam.append(("without", n))
+                if _unreferenced(mem, n) != [m for m in mem if m[0] != n]:
+                    fam.append(("without+unreferenced", n))
+        _SCAN_CACHE[key] = fam
+    return _SCAN_CACHE[key]
+
+
+def history_document(fmt, ink_no, variant):
+    """(path, bytes) of the document"""
+    if fmt.startswith("fixture-"):
+        p = _fixture_pairs()[fmt][ink_no % 2]
+        with open(p, "rb") as f:
+            return "/data/" + os.path.basename(p), f.read()
+    ink = INKS[ink_no % len(INKS)]
+    path = "/data/%s.%s" % (ink, fmt)
+    if fmt in FLAT:
+        data = FLAT[fmt](ink, variant[1] if variant[0] == "without" else None)
+        return path, data.decode("utf-8").encode(variant[1]) if variant[0] == "encoded as" else data
+    mem = PACKAGES[fmt](ink)
+    if variant[0] == "without":
+        mem = [m for m in mem if m[0] != variant[1]]
+    elif variant[0] == "without+unreferenced":
+        mem = _unreferenced(mem, variant[1])
+    return path, _h_zip(mem)
+
+
+# ---- processes without extraction history ------------------------------------------------
+
+_ZYGOTE_SRC = r"""
+import sys, os, io, json, struct, base64, signal, re
+
+def _extract(path, data, keep):
+    from sharepoint2text.parsing.router import get_extractor
+    buf = io.BytesIO(data)
+    objs = None
+    try:
+        objs = list(get_extractor(path)(buf, path))
+        out = json.dumps([r.to_json() for r in objs], sort_keys=True, default=str)
+    except Exception as e:
+        out = json.dumps({"__raised__": type(e).__name__, "msg": re.sub(r"0x[0-9a-fA-F]+", "0x", str(e))[:200]})
+    keep.append((objs, buf, data))
+    return {"json": out, "buffer_intact": buf.getvalue() == data}
+
+def _again(res, keep):
+    # the results of the earlier steps are still alive: serialised once more after everything else was extracted
+    for r, (objs, buf, data) in zip(res, keep):
+        r["buffer_intact"] = r["buffer_intact"] and buf.getvalue() == data
+        if objs is not None:
+            try:
+                r["json_at_the_end"] = json.dumps([o.to_json() for o in objs], sort_keys=True, default=str)
+            except Exception as e:
+                r["json_at_the_end"] = json.dumps({"__raised__": type(e).__name__})
+
+def _job(job):
+    called = set()
+    wanted = {(f, n) for f, n in job.get("watch", [])}
+    mon = getattr(sys, "monitoring", None)
+    if wanted:
+        files = sorted({f for f, _ in wanted})
+        def note(code):
+            fn = code.co_filename
+            for f in files:
+                if fn.endswith(f) and (f, code.co_name) in wanted:
+                    called.add((f, code.co_name))
+        if mon is not None:
+            def started(code, offset):
+                note(code)
+                return mon.DISABLE
+            mon.use_tool_id(mon.PROFILER_ID, "c06")
+            mon.register_callback(mon.PROFILER_ID, mon.events.PY_START, started)
+            mon.set_events(mon.PROFILER_ID, mon.events.PY_START)
+        else:
+            sys.setprofile(lambda frame, event, arg: note(frame.f_code) if event == "call" else None)
+    try:
+        keep = []
+        res = [_extract(p, base64.b64decode(d), keep) for p, d in job["docs"]]
+        _again(res, keep)
+    finally:
+        if wanted and mon is not None:
+            mon.set_events(mon.PROFILER_ID, 0)
+        elif wanted:
+            sys.setprofile(None)
+    return {"results": res, "called": sorted(called)}
+
+inp, outp = sys.stdin.buffer, sys.stdout.buffer
+from sharepoint2text.parsing.router import get_extractor     # imported, nothing extracted: every run is a fork of this state
+while True:
+    hdr = inp.read(4)
+    if len(hdr) < 4:
+        break
+    job = json.loads(inp.read(struct.unpack(">I", hdr)[0]))
+    for p in job.get("preload", []):         # reader modules imported here (import only), not once per fork
+        try:
+            get_extractor(p)
+        except Exception:
+            pass
+    answers, kids = [], []
+
+    def collect():
+        for pid, r in kids:
+            with os.fdopen(r, "rb") as f:
+                payload = f.read()
+            os.waitpid(pid, 0)
+            answers.append(json.loads(payload or b'{"__child_error__": "no answer (killed or timed out)"}'))
+        del kids[:]
+    for run in job["runs"]:
+        if len(kids) >= 16:
+            collect()
+        r, w = os.pipe()
+        pid = os.fork()
+        if pid == 0:
+            try:
+                os.close(r)
+                os.dup2(2, 1)
+                signal.alarm(int(job.get("timeout", 300)))
+                payload = json.dumps(_job({"docs": run, "watch": job.get("watch", [])})).encode()
+            except BaseException as e:
+                payload = json.dumps({"__child_error__": "%s: %s" % (type(e).__name__, e)}).encode()
+            try:
+                with os.fdopen(w, "wb") as f:
+                    f.write(payload)
+            finally:
+                os._exit(0)
+        os.close(w)
+        kids.append((pid, r))
+    collect()
+    payload = json.dumps(answers).encode()
+    outp.write(struct.pack(">I", len(payload)) + payload)
+    outp.flush()
+"""
+_ZYGOTE = {}
+
+
+def in_processes_without_history(runs, watch=()):
+    """runs = [[(path, bytes), ...], ...]: every run is extracted, one document after the other by the public reader,
+    in a NEW process of its own whose library state is 'imported, nothing extracted' (a fork of a server that only
+    ever imports the package and never extracts; the server is started once per worker, the runs of one call are
+    forked side by side).  -> per run {"results": [{"json": canonical to_json() of the reader's results | exception
+    raised, "buffer_intact": bool}], "called": [(file, function) of `watch` that ran]}"""
+    import json
+    import struct
+    import subprocess
+    import sys
+    z = _ZYGOTE.get("proc")
+    if z is None or z.poll() is not None:
+        env = dict(os.environ, PYTHONDONTWRITEBYTECODE="1")
+        env.setdefault("PYTHONHASHSEED", "0")
+        z = _ZYGOTE["proc"] = subprocess.Popen([sys.executable, "-c", _ZYGOTE_SRC], stdin=subprocess.PIPE, stdout=subprocess.PIPE,
+                                               stderr=subprocess.DEVNULL, env=env)
+    job = json.dumps({"runs": [[[p, base64.b64encode(d).decode()] for p, d in docs] for docs in runs],
+                      "preload": sorted({p for docs in runs for p, _ in docs}), "watch": [list(w) for w in watch]}).encode()
+    z.stdin.write(struct.pack(">I", len(job)) + job)
+    z.stdin.flush()
+    hdr = z.stdout.read(4)
+    if len(hdr) < 4:
+        _ZYGOTE.pop("proc", None)
+        raise RuntimeError("extraction server ended unexpectedly")
+    out = json.loads(z.stdout.read(struct.unpack(">I", hdr)[0]))
+    for o in out:
+        if "__child_error__" in o:
+            raise RuntimeError("extraction process failed: " + o["__child_error__"])
+    return out
+
+
+_REFERENCE = {}
+
+
+def _ref_key(path, data):
+    import hashlib
+    return (path, hashlib.sha1(data).hexdigest())
+
+
+def sequences_and_references(sequences, extra_reference_docs=(), watch=(), cached=True):
+    """the sequences, each in a process of its own, and - what the property calls THE result of (bytes, path) - every
+    document of them alone in a process of its own.  cached: references are kept per worker (a reference never
+    changes) and sequences extracted ahead for this part are taken from there; replays pass cached=False and
+    run everything anew.  -> (answers per sequence, reference(path, bytes) -> {"json", "buffer_intact"})"""
+    refs = _REFERENCE if cached else {}
+    need = {}
+    for docs in list(sequences) + [list(extra_reference_docs)]:
+        for path, data in docs:
+            k = _ref_key(path, data)
+            if k not in refs:
+                need[k] = (path, data)
+    todo = [docs for docs in sequences if not (cached and not watch and _seq_key(docs) in _SEQUENCES)]
+    out = in_processes_without_history(todo + [[d] for d in need.values()], watch=watch) if todo or need else []
+    for k, o in zip(need, out[len(todo):]):
+        refs[k] = o["results"][0]
+    fresh = {_seq_key(docs): o for docs, o in zip(todo, out)}
+    if cached and not watch:
+        _SEQUENCES.update(fresh)
+    return [fresh.get(_seq_key(docs)) or _SEQUENCES[_seq_key(docs)] for docs in sequences], (lambda path, data: refs[_ref_key(path, data)])
+
+
+_SEQUENCES = {}
+
+
+def _seq_key(docs):
+    return tuple(_ref_key(p_, d) for p_, d in docs)
+
+
+class _EveryPick:
+    """stands in for ctx while the sequences of a part are listed: pick() follows a prefix, then takes 0"""
+
+    def __init__(self, params, prefix):
+        self.params, self.prefix, self.trace = params, prefix, []
+
+    def pick(self, name, n):
+        i = len(self.trace)
+        v = self.prefix[i] if i < len(self.prefix) else 0
+        self.trace.append((v, n))
+        return v
+
+
+def _extract_ahead(params):
+    """symbolic runs only: all sequences the choices of this part can draw are extracted in batches (side by side in
+    the server's forks) before the engine walks through the choices; each path then reads its own sequence's answer"""
+    import json
+    key = ("ahead", json.dumps({k: v for k, v in params.items() if k != "known_active"}, sort_keys=True, default=str))
+    if key in _SEQUENCES:
+        return
+    _SEQUENCES[key] = True
+    work, seqs = [[]], []
+    while work:
+        e = _EveryPick(params, work.pop())
+        seqs.append(_history_steps(e)[1])
+        for i in range(len(e.prefix), len(e.trace)):
+            work += [[t[0] for t in e.trace[:i]] + [alt] for alt in range(1, e.trace[i][1])]
+    for i in range(0, len(seqs), 16):
+        sequences_and_references(seqs[i:i + 16])
+
+
+def _json_difference(a, b):
+    """(paths at which two canonical JSON texts differ, the two values at the first of them)"""
+    import json
+    import re
+    try:
+        ja, jb = json.loads(a), json.loads(b)
+        where = same(ja, jb)[1]
+        va, vb = ja, jb
+        for key in [k for k in re.sub(r"(\[len\]|\{keys\}|\{size\}| \(symbolic\))$", "", where[0]).split("/") if k] if where else []:
+            va, vb = (va[int(key)], vb[int(key)]) if isinstance(va, list) else (va[key], vb[key])
+        return where, json.dumps(va, sort_keys=True)[:300], json.dumps(vb, sort_keys=True)[:300]
+    except Exception:
+        return ["(whole result)"], a[:300], b[:300]
+
+
+def _history_steps(ctx):
+    """the sequence of (format, ink, variant, path override) drawn for this path"""
+    if "formats" in ctx.params:
+        group = _format_group(ctx.params["formats"])
+        fmt = group[ctx.pick("format", len(group))]
+    else:
+        fmt = ctx.params.get("format", "docx")
+    mode = ctx.params.get("pairs", "star")
+    fam = history_family(fmt)
+    alias = 0
+    if mode == "cross":
+        others = [g for g in (sorted(PACKAGES) if ctx.params.get("among") == "packages" else history_formats()) if g != fmt]
+        f0 = ctx.params["first_format"] if "first_format" in ctx.params else others[ctx.pick("step0_format", len(others))]
+        steps = [(f0, 0, ("full",)), (fmt, 1, ("full",))]
+    elif mode == "all":
+        lo, hi = ctx.params.get("first_in", [0, len(fam)])
+        v0 = lo + ctx.pick("step0_variant_offset", min(hi, len(fam)) - lo)
+        steps = [(fmt, 0, fam[v0]), (fmt, 1, fam[ctx.pick("step1_variant", len(fam))])]
+    else:
+        v = ctx.pick("variant", len(fam))
+        if v == 0:
+            alias = ctx.pick("path_aliasing", 4)
+            steps = [(fmt, 0, fam[0]), (fmt, 1, fam[0])]
+        elif (ctx.params["varied_step"] if "varied_step" in ctx.params else ctx.pick("varied_step", 2)) == 0:
+            steps = [(fmt, 0, fam[v]), (fmt, 1, fam[0])]
+        else:
+            steps = [(fmt, 0, fam[0]), (fmt, 1, fam[v])]
+    docs = [history_document(f, ink, var) for f, ink, var in steps]
+    if alias & 1:                                   # other bytes under the path of the first document
+        docs[1] = (docs[0][0], docs[1][1])
+    if ctx.params.get("L", 3) >= 3:                 # the first document once more ...
+        steps.append(steps[0])
+        docs.append(docs[0] if not alias & 2 else ("/elsewhere/copy-of-" + docs[0][0].rsplit("/", 1)[-1], docs[0][1]))   # ... or its bytes under another path
+    return steps, docs
+
+
+def k5_histories(ctx):
+    if ctx.params.get("state_sites"):
+        return _k5_state_sites(ctx)
+    if not ctx.concrete and not ctx.perturb:
+        _extract_ahead(ctx.params)
+    steps, docs = _history_steps(ctx)
+    described = ["%s %s [%s] as %s" % (f, " ".join(var), INKS[ink % len(INKS)] if not f.startswith("fixture-") else "resource", p)
+                 for (f, ink, var), (p, _) in zip(steps, docs)]
+    ref_docs = []
+    for i in range(len(docs)):
+        ref_doc = docs[0] if ctx.perturb == "reference_from_first_document" else docs[i]
+        if ctx.perturb == "dropped_member_still_expected" and steps[i][2][0] != "full":
+            ref_doc = history_document(steps[i][0], steps[i][1], ("full",))
+        ref_docs.append(ref_doc)
+    answers, reference = sequences_and_references([docs], ref_docs, cached=not ctx.concrete)
+    got = answers[0]["results"]
+    for i in range(len(docs)):
+        ref = reference(*ref_docs[i])
+        info = dict(step=i + 1, sequence=described[:i + 1])
+        ctx.require(got[i]["buffer_intact"] and ref["buffer_intact"], "callers-buffer-content-changed", **info)
+        if got[i].get("json_at_the_end", got[i]["json"]) != got[i]["json"] and ctx.perturb is None:
+            where, seen, expected = _json_difference(got[i]["json_at_the_end"], got[i]["json"])
+            ctx.fail("result-changed-by-a-later-extraction", differs_at=where, serialised_after_the_later_extractions=seen,
+                     serialised_right_after_its_extraction=expected, later=described[i + 1:], **info)
+        if got[i]["json"] != ref["json"]:
+            foreign = sorted({k for j, (f, ink, _) in enumerate(steps[:i]) if not f.startswith("fixture-") and ink != steps[i][1]
+                              for k in [INKS[ink % len(INKS)]] if k in got[i]["json"] and k not in ref["json"]})
+            where, seen, expected = _json_difference(got[i]["json"], ref["json"])
+            ctx.fail("result-depends-on-extraction-history", differs_at=where, after_this_history=seen, in_a_process_of_its_own=expected,
+                     text_of_earlier_document=foreign, **info)
+    ctx.require(True, "sequence-compared")
+
+
+def history_formats():
+    return sorted(PACKAGES) + sorted(FLAT) + sorted(_fixture_pairs())
+
+
+# ---- where state can outlive one extraction (located by AST scan) -------------------------
+
+_MUTABLE_CALLS = {"dict", "list", "set", "defaultdict", "OrderedDict", "Counter", "deque", "bytearray", "WeakValueDictionary"}
+_MUTATORS = {"append", "extend", "insert", "add", "update", "setdefault", "pop", "popitem", "clear", "remove", "discard",
+             "appendleft", "extendleft", "sort", "reverse", "move_to_end", "__setitem__", "__delitem__"}
+
+
+def scan_state_sites():
+    """{key: site}: places of the package where a value lives as long as the process and is written while the library
+    runs - (a) class-body attributes holding a mutable container that some method writes through (shared by all
+    instances), (b) module-level names holding a mutable container that a function writes to, or that a function
+    rebinds through ``global``, (c) memoised functions (lru_cache / cache), (d) mutable default arguments that the
+    function writes to.  site = {file, line, kind, name, writers: [(file, function name)]}.  Containers that nothing
+    writes to are constant tables, not sites."""
+    import ast
+    if "state" in _SCAN_CACHE:
+        return _SCAN_CACHE["state"]
+
+    def mutable(e):
+        return isinstance(e, (ast.Dict, ast.List, ast.Set, ast.ListComp, ast.DictComp, ast.SetComp)) or (
+            isinstance(e, ast.Call) and ((isinstance(e.func, ast.Name) and e.func.id in _MUTABLE_CALLS) or
+                                         (isinstance(e.func, ast.Attribute) and e.func.attr in _MUTABLE_CALLS)))
+
+    def written(fn):
+        """what a function writes INTO: [('name', id) | ('attr', attribute name)] of the container expression"""
+        out = []
+
+        def tgt(e):
+            if isinstance(e, ast.Name):
+                out.append(("name", e.id))
+            elif isinstance(e, ast.Attribute):
+                out.append(("attr", e.attr))
+        for n in ast.walk(fn):
+            if isinstance(n, ast.Call) and isinstance(n.func, ast.Attribute) and n.func.attr in _MUTATORS:
+                tgt(n.func.value)
+            elif isinstance(n, (ast.Assign, ast.AugAssign, ast.AnnAssign, ast.Delete)):
+                ts = n.targets if isinstance(n, (ast.Assign, ast.Delete)) else [n.target]
+                for t in ts:
+                    if isinstance(t, ast.Subscript):
+                        tgt(t.value)
+                    elif isinstance(n, ast.AugAssign):
+                        tgt(t)
+        return out
+
+    def used_names():
+        """names loaded anywhere in the package (a memoised function nothing refers to is dead code, not state)"""
+        if "used" not in _SCAN_CACHE:
+            used = _SCAN_CACHE["used"] = set()
+            for path_ in _package_files():
+                with open(path_, encoding="utf-8") as f_:
+                    for n in ast.walk(ast.parse(f_.read())):
+                        if isinstance(n, ast.Name) and isinstance(n.ctx, ast.Load):
+                            used.add(n.id)
+                        elif isinstance(n, ast.Attribute):
+                            used.add(n.attr)
+                        elif isinstance(n, ast.alias):
+                            used.add(n.name.split(".")[-1])
+        return _SCAN_CACHE["used"]
+
+    sites = {}
+    for path in _package_files():
+        rel = path[len(S.REPO) + 1:]
+        with open(path, encoding="utf-8") as f:
+            tree = ast.parse(f.read())
+        funcs = [n for n in ast.walk(tree) if isinstance(n, (ast.FunctionDef, ast.AsyncFunctionDef))]
+        writes = {fn: written(fn) for fn in funcs}
+
+        def local_names(fn):
+            out = {a.arg for a in fn.args.args + fn.args.kwonlyargs + fn.args.posonlyargs}
+            globs = {g for n in ast.walk(fn) if isinstance(n, ast.Global) for g in n.names}
+            for n in ast.walk(fn):
+                if isinstance(n, (ast.Assign, ast.AnnAssign, ast.AugAssign, ast.For, ast.NamedExpr)):
+                    ts = n.targets if isinstance(n, ast.Assign) else [n.target]
+                    for t in ts:
+                        for x in ast.walk(t):
+                            if isinstance(x, ast.Name) and isinstance(x.ctx, ast.Store):
+                                out.add(x.id)
+            return out - globs, globs
+
+        def add(node, kind, name, writers):
+            sites["%s::%s" % (rel, name)] = {"file": rel, "line": node.lineno, "kind": kind, "name": name,
+                                            "writers": sorted({(rel, w.name) for w in writers})}
+        # (a) class-body containers
+        for cls in [n for n in ast.walk(tree) if isinstance(n, ast.ClassDef)]:
+            for st in cls.body:
+                name = val = None
+                if isinstance(st, ast.Assign) and len(st.targets) == 1 and isinstance(st.targets[0], ast.Name):
+                    name, val = st.targets[0].id, st.value
+                elif isinstance(st, ast.AnnAssign) and isinstance(st.target, ast.Name) and st.value is not None:
+                    name, val = st.target.id, st.value
+                if name and mutable(val):
+                    ws = [fn for fn in funcs if ("attr", name) in writes[fn]]
+                    if ws:
+                        add(st, "class attribute shared by all instances", "%s.%s" % (cls.name, name), ws)
+        # (b) module-level names
+        for st in tree.body:
+            names, val = [], None
+            if isinstance(st, ast.Assign):
+                names, val = [t.id for t in st.targets if isinstance(t, ast.Name)], st.value
+            elif isinstance(st, ast.AnnAssign) and isinstance(st.target, ast.Name):
+                names, val = [st.target.id], st.value
+            for name in names:
+                ws = []
+                for fn in funcs:
+                    loc, globs = local_names(fn)
+                    if name in globs and any(isinstance(n, (ast.Assign, ast.AugAssign, ast.AnnAssign)) and any(
+                            isinstance(x, ast.Name) and x.id == name and isinstance(x.ctx, ast.Store)
+                            for t in (n.targets if isinstance(n, ast.Assign) else [n.target]) for x in ast.walk(t))
+                            for n in ast.walk(fn)):
+                        ws.append(fn)
+                    elif val is not None and mutable(val) and name not in loc and ("name", name) in writes[fn]:
+                        ws.append(fn)
+                if ws:
+                    add(st, "module-level state", name, ws)
+        # (c) memoised functions, (d) written mutable defaults
+        for fn in funcs:
+            if any("cache" in ast.unparse(d_) and "cached_property" not in ast.unparse(d_) for d_ in fn.decorator_list) \
+                    and fn.name in used_names():
+                add(fn, "memoised function", fn.name + "()", [fn])
+            args = fn.args.args + fn.args.kwonlyargs
+            defaults = [None] * (len(fn.args.args) - len(fn.args.defaults)) + list(fn.args.defaults) + list(fn.args.kw_defaults)
+            for a_, d_ in zip(args, defaults):
+                if d_ is not None and mutable(d_) and ("name", a_.arg) in writes[fn]:
+                    add(fn, "mutable default argument", "%s(%s=)" % (fn.name, a_.arg), [fn])
+    _SCAN_CACHE["state"] = sites
+    return sites
+
+
+# state the document sequences of this kernel cannot reach, with the reason it is left outside
+_X = "sharepoint2text/parsing/extractors/"
+STATE_OUTSIDE = {
+    _X + "archive_extractor.py::_config":
+        "configuration record, rebound only by the public configure_archive_extraction(); no extraction writes it",
+    _X + "pdf/_pypdf_aes_fallback.py::_ROUND_KEY_CACHE":
+        "AES round keys memoised under the full key bytes, written only while an AES-encrypted PDF is decrypted: the harness has no "
+        "writer for such PDFs and the repository's encrypted resources need a password the reader does not take",
+    _X + "serialization.py::_TYPE_REGISTRY":
+        "class-name table of the deserialiser, filled once from the data_types module; deserialisation is not an observer of this property",
+}
+
+
+def _k5_state_sites(ctx):
+    """every located state site is written by a function that runs in some document sequence of this kernel (so the
+    sequences are what decides whether it carries history), or is declared outside"""
+    sites = scan_state_sites()
+    if ctx.perturb:
+        raise S.BoundExceeded("not a twin part")
+    watch = sorted({tuple(w) for s in sites.values() for w in s["writers"]})
+    fmts = history_formats()
+    seqs = []
+    for fmt in fmts:
+        docs = [history_document(fmt, 0, ("full",)), history_document(fmt, 1, ("full",))]
+        seqs.append(docs + [docs[0]])
+    answers, reference = sequences_and_references(seqs, watch=watch)
+    called = {tuple(c_) for a in answers for c_ in a["called"]}
+    for fmt, docs, a in zip(fmts, seqs, answers):
+        for i, (path, data) in enumerate(docs):
+            ctx.require(a["results"][i]["json"] == reference(path, data)["json"], "result-depends-on-extraction-history",
+                        step=i + 1, sequence=["%s: full documents A, B, A" % fmt], traced=True)
+    idle = sorted(k for k, s in sites.items() if k not in STATE_OUTSIDE and not any(tuple(w) in called for w in s["writers"]))
+    if idle:
+        raise S.BoundExceeded("state that outlives an extraction is written by code no document sequence of K5 runs "
+                              "(no generator reaches it; extend a family or declare it outside): " + "; ".join(idle))
+    ctx.require(True, "state-sites-exercised", sites=len(sites))
+
+
+def _format_group(name):
+    return {"flat": sorted(FLAT), "resources": sorted(_fixture_pairs()), "packages": sorted(PACKAGES), "every": history_formats()}[name]
+
+
+def _k5_parts(tier):
+    """quick: per package format the 'star' of its family (the full document before / after every other member of the
+    family, the first document extracted once more at the end; for the pair of full documents also the path aliasings),
+    flat formats and repository resources as (A, B, A) with the path aliasings, every ordered pair of package formats.
+    thorough: every ordered pair of family members per format (parts by first member), every ordered pair of all
+    formats."""
+    parts = [{"format": f, "pairs": "star"} for f in sorted(PACKAGES)]
+    parts += [{"formats": "flat", "pairs": "star"}, {"formats": "resources", "pairs": "star"}]
+    if tier == "quick":
+        parts.append({"formats": "packages", "pairs": "cross", "among": "packages"})
+    else:
+        for f in sorted(PACKAGES):
+            parts += [{"format": f, "pairs": "all", "first_in": [i, i + 6]} for i in range(0, len(history_family(f)), 6)]
+        parts += [{"format": f, "pairs": "cross"} for f in history_formats()]
+    parts.append({"state_sites": True})
+    return parts
+
+
+def _k5_targets():
+    from sharepoint2text.parsing.router import get_extractor
+    return [get_extractor("x." + f) for f in sorted(set(PACKAGES) | set(FLAT))]
+
+
 KERNELS = [
     Kernel("K1", "observers are idempotent and leave to_json() unchanged: every content type, every sequence of <= 3 observers",
            k1_observers, targets=_k1_targets, parts=_k1_parts,
@@ -2220,7 +3120,42 @@ KERNELS = [
            assumptions=["one small generated file per format (txt, html, docx, odt, rtf, eml, mbox, zip, tar, xlsx with / without core "
                         "properties; pdf via pypdf and pptx/epub/odp via the C14 writers when importable)"],
            outside=["legacy OLE formats (doc, xls, ppt, msg) and 7z: no writer in the harness; results across fresh processes "
-                    "(K2 covers the hash seed)"]),
+                    "(K2 covers the hash seed, K5 the extraction history)"]),
+    Kernel("K5", "extraction histories: the result for (bytes, path) after any sequence of earlier extractions in the same process "
+                 "equals the result in a process of its own",
+           k5_histories, targets=_k5_targets, parts=_k5_parts, strength="structure",
+           perturb=[("reference_from_first_document", {"format": "html", "pairs": "star"}),
+                    ("dropped_member_still_expected", {"format": "docx", "pairs": "star"})],
+           bounds={"quick": {"sequences": "length 3 (A, B, A again); per package format the star of its family around the full "
+                                          "document; ordered pairs of package formats"},
+                   "thorough": {"sequences": "length 3; every ordered pair of family members per package format; every ordered pair "
+                                             "of formats"}},
+           choices=["which member of the package is missing in the varied document (every member of the generated DOCX / PPTX / XLSX / "
+                    "ODT / ODP / ODS / EPUB / ZIP package: parts, relationship parts, media, manifest, core properties, styles, header, "
+                    "footer, notes, comments ...), and whether the elements that refer to it (Relationship, content-type Override, "
+                    "manifest entry, OPF item) are removed too or left dangling",
+                    "whether the varied document comes before or after the full one (thorough: both documents range over the family)",
+                    "path aliasing for the pair of full documents: other bytes under the first document's path; the first "
+                    "document's bytes under another path at the third step",
+                    "format of the earlier document (ordered pairs of formats)"],
+           stubs=["process without extraction history -> fork of a server process that has imported sharepoint2text.parsing.router "
+                  "and never extracts anything itself (one server per worker; the sequence and every reference run in forks of it)"],
+           assumptions=["two documents of one format carry the same part names, relationship ids, style ids, note ids and paths inside "
+                        "the package and differ in every text, name, author and picture (their 'ink'), so anything kept from an "
+                        "earlier document under such a key is visible in a later result",
+                        "reference for every step: canonical JSON (sort_keys) of to_json() of the public reader's results - or the "
+                        "exception type and message - for the same (bytes, path) in a process of its own",
+                        "formats without a writer here (doc, xls, ppt, odg, odf, real-world pdf) are driven with the two smallest "
+                        "test resources of the repository as documents A and B",
+                        "state-site part: an AST scan locates values that outlive one extraction and are written while the library "
+                        "runs (class-body containers written through instances, module-level containers / globals written by "
+                        "functions, memoised functions, written mutable defaults); each must be written by a function that runs in "
+                        "some sequence of this kernel (observed with sys.monitoring in the extracting process) or be declared in "
+                        "STATE_OUTSIDE, else the kernel is inconclusive"],
+           outside=["histories longer than 2 earlier documents; documents that differ from the generated packages in more than one "
+                    "missing member; state kept outside the python process (files, environment)"]
+                   + ["state site %s: %s" % kv for kv in sorted(STATE_OUTSIDE.items())],
+           timeout={"quick": 300, "thorough": 1500}, max_depth=600),
 ]
 
 META = {
@@ -2232,12 +3167,19 @@ META = {
                   "set's iteration order as a symbolic permutation (query: two permutations give different results), with replay through "
                   "the public readers under different PYTHONHASHSEED values. The stream helpers (_bytesio_to_base64, "
                   "validate_zip_bytesio, open_zipfile, ZipContext, is_*_encrypted) run on a stand-in stream with symbolic position: "
-                  "position restored where documented, OLE sniffing started at offset 0, never written or closed.",
+                  "position restored where documented, OLE sniffing started at offset 0, never written or closed. Histories: "
+                  "documents are generated per format as packages with identical part names / relationship ids / style ids and "
+                  "different content, each member missing in turn (references dangling or removed); every chosen sequence (A, B, A) "
+                  "is extracted by the public reader in one process without earlier history and each step must equal the result of "
+                  "the same (bytes, path) in a process of its own; values that outlive an extraction are located by an AST scan and "
+                  "must be exercised by some sequence.",
     "level_note": "Trusted: instance generators cover the declared field types only (results of the parsers are a subset); the scan's "
                   "set-type inference (syntactic, per scope); stand-ins for zipfile/olefile. Outside: bit-identical results across fresh "
-                  "processes beyond the hash-seed mechanism, longer observer sequences, larger instances, legacy OLE formats in K4.",
+                  "processes beyond the hash-seed mechanism and the generated histories (<= 2 earlier documents, one missing member per "
+                  "document), longer observer sequences, larger instances, legacy OLE formats in K4.",
     "technique": "symbolic execution of the real observer methods on dataclass instances with z3-backed fields (symrun), relational "
                  "idempotence/frame query per path; AST scan + source rewriting of set constructions into a symbolic-permutation set, "
                  "SMT query for order dependence; symbolic-position stream stand-in; bounded-exhaustive structure exploration "
-                 "through the public readers",
+                 "through the public readers; bounded-exhaustive exploration of extraction sequences over generated package "
+                 "families in history-free processes against per-document reference processes",
 }
